@@ -156,6 +156,16 @@ func c14Scenarios(thorough bool) []c14Scenario {
 			{Op: "drain"},
 			{Op: "completion", Doc: "main.journal", Line: 8, Char: 11},
 		}},
+		// a request that fills a per-document cache while the first analysis may not
+		// have recorded the include tree yet: the payee of the last header has
+		// postings in the included file only
+		{Name: "S11-template-asked-before-the-tree-is-known", Files: files, Bound: b(2, 3), Msgs: []wire.Msg{
+			{Op: "open", Doc: "main.journal", Text: "include inc.journal\n\n2001-03-01 landlord\n"},
+			{Op: "inline", Doc: "main.journal", Line: 3, Char: 0},
+			{Op: "drain"},
+			{Op: "inline", Doc: "main.journal", Line: 3, Char: 0},
+			{Op: "completion", Doc: "main.journal", Line: 3, Char: 0},
+		}},
 		{Name: "S4-two-docs-semantic-tokens", Files: files, Bound: b(1, 2), Msgs: []wire.Msg{
 			{Op: "open", Doc: "main.journal", Text: c14Main0},
 			{Op: "open", Doc: "inc.journal", Text: c14Inc0},
@@ -463,6 +473,18 @@ func c14LagVariants(dir string, sc c14Scenario) c14Lag {
 						}
 					}
 				}
+			}
+			// after a drain with nothing spawned since, everything is complete:
+			// only the response of the sequential run (all computations inline) is
+			// acceptable then, whatever was postponed before the drain
+			quiescent := lastDrain >= 0
+			for _, s := range spawns {
+				if s.msg <= i && s.msg > lastDrain {
+					quiescent = false
+				}
+			}
+			if quiescent && m != 1<<n-1 {
+				coherent = false
 			}
 			if coherent {
 				lag.accept[i][r] = true
